@@ -165,6 +165,15 @@ def selftest(prop, rules, baseline_keys):
     return out
 
 
+def _sensitivity(prop, ctx, baseline):
+    """Thorough tier: first-order syntactic mutants of the analysed functions, evaluated statically (never a verdict)."""
+    try:
+        from .mutate import sensitivity
+        return sensitivity(prop, ctx.functions_analysed, str(ctx.repo.root), baseline, per_function=10, total=240)
+    except Exception as e:      # instrument only
+        return {"error": f"{type(e).__name__}: {e}"[:200]}
+
+
 def run_property(prop, rules, doc, tier, explain=False, replay_key=None):
     """rules: list of (rule_id, text, function(ctx)). Returns exit code."""
     t0 = time.time()
@@ -257,6 +266,7 @@ def run_property(prop, rules, doc, tier, explain=False, replay_key=None):
             "exhaustive": False,
             **ctx.info,
             **({"selftest": selftest(prop, rules, {i.key for i in viol})} if tier == "thorough" and replay_key is None else {}),
+            **({"mutation_sensitivity": _sensitivity(prop, ctx, {i.key for i in viol})} if tier == "thorough" and replay_key is None else {}),
         },
         "assumptions": [
             "verdicts are about the structural clauses listed in DESIGN.md for this property, not the runtime behaviour as a whole",
